@@ -132,3 +132,94 @@ func HarnessC20BlankConcurrent() {
 	}
 	zzverif.Reached("c20-blank-conc-end")
 }
+
+type c20cfgF struct {
+	Name string
+	DB   struct {
+		Host string
+		TLS  struct{ Cert string }
+		Pool int8
+	}
+}
+
+// c20flat fills the flattened leaves (DBHost, DBTLSCert, DBPool, Name) of whatever type it is
+// handed, by name.
+type c20flat struct {
+	host, cert, pool, name bool
+	t                      *dials.Type
+	wa                     dials.WatchArgs
+}
+
+func (s *c20flat) make(t *dials.Type) reflect.Value {
+	out := reflect.New(t.Type()).Elem()
+	set := func(n string, v interface{}) {
+		f := out.FieldByName(n)
+		if !f.IsValid() {
+			zzverif.Fail("C20 the flattened type has no field " + n)
+			return
+		}
+		p := reflect.New(f.Type().Elem())
+		p.Elem().Set(reflect.ValueOf(v).Convert(f.Type().Elem()))
+		f.Set(p)
+	}
+	if s.host {
+		set("DBHost", "h")
+	}
+	if s.cert {
+		set("DBTLSCert", "c")
+	}
+	if s.pool {
+		set("DBPool", int8(4))
+	}
+	if s.name {
+		set("Name", "n")
+	}
+	return out
+}
+
+func (s *c20flat) Value(ctx context.Context, t *dials.Type) (reflect.Value, error) {
+	return s.make(t), nil
+}
+
+func (s *c20flat) Watch(ctx context.Context, t *dials.Type, wa dials.WatchArgs) error {
+	s.t, s.wa = t, wa
+	return nil
+}
+
+// HarnessC20Flatten: a transforming source with the flatten mangler: any subset of the flattened
+// leaves (a leaf ahead of an unset inner struct among them) arrives at the nested place, initially
+// and on update.
+func HarnessC20Flatten() {
+	inner := &c20flat{host: zzverif.Bool("host"), cert: zzverif.Bool("cert"), pool: zzverif.Bool("pool"), name: zzverif.Bool("name")}
+	src := NewTransformingSource(inner, transform.DefaultFlattenMangler())
+	ctx, cancel := context.WithCancel(context.Background())
+	defer cancel()
+	def := c20cfgF{Name: "dn"}
+	def.DB.Host, def.DB.TLS.Cert, def.DB.Pool = "dh", "dc", 1
+	d, err := dials.Config(ctx, &def, src)
+	zzverif.Assert(err == nil, "C20 Config failed through a transforming source with the flatten mangler")
+	if err != nil {
+		return
+	}
+	chk := func(when string) {
+		got := d.View()
+		w := func(set bool, a, b string) string {
+			if set {
+				return a
+			}
+			return b
+		}
+		wantPool := int8(1)
+		if inner.pool {
+			wantPool = 4
+		}
+		zzverif.Assert(got.DB.Host == w(inner.host, "h", "dh") && got.DB.TLS.Cert == w(inner.cert, "c", "dc") && got.DB.Pool == wantPool && got.Name == w(inner.name, "n", "dn"),
+			"C20 "+when+": a leaf reported through the flatten wrapper did not arrive at its nested place (or an unset one lost its default)")
+	}
+	chk("initial value")
+	inner.host, inner.cert = !inner.host, !inner.cert
+	e := inner.wa.BlockingReportNewValue(ctx, inner.make(inner.t))
+	zzverif.Assert(e == nil, "C20 a blocking update through the wrapper failed")
+	chk("update")
+	zzverif.Reached("c20-flatten-end")
+}
